@@ -1,6 +1,8 @@
 import ScriggoV.Lemmas.CutSpecFacts
 import ScriggoV.Lemmas.CutRaw
 import ScriggoV.Lemmas.CutTok
+import ScriggoV.Lemmas.CutLexLines
+import ScriggoV.Gen.LexAdvance
 /-! C15 — template text is emitted verbatim except for the documented removals.
 
 Model: `Model/Cut.lean` (`render`): delimiter-level tokenizer for a fixed vocabulary, the token
@@ -28,6 +30,12 @@ What is proved, for every source whose code parts are in the vocabulary (`tokeni
   `endRawIndex_spec` — a raw block ends at the first end statement with its marker.
 * `no_cut_with_middle_text` — what fix C15-cut-middle-text guarantees: a line that holds a
   text other than its first one is never cut (this is what happens when URL tokens split a text).
+
+* `model_lines_count_LF`, `lexer_steps_count_LF`, `lexer_rune_steps_not_LF` — the line numbers the
+  cut rule reads. The model numbers tokens by counting the LF before them; the engine reads the
+  lexer's hidden `lin`. Over the bookkeeping regenerated from lexer.go on every check
+  (`Gen/LexAdvance.lean`, shared with C21): every path of the lexer's byte walks adds to `l.line`
+  exactly the number of LF among the bytes it steps over, in every context.
 
 The tie to internal/compiler is the correspondence harness go/props/c15. -/
 deriving instance DecidableEq for Except
@@ -208,6 +216,65 @@ example : endRawIndex [] [123, 37, 123, 37, 32, 101, 110, 100, 32, 114, 97, 119,
     = .ok (some 2) := by decide +kernel
 example : endRawIndex [109] [123, 37, 32, 101, 110, 123, 37, 32, 101, 110, 100, 32, 114, 97, 119, 32, 120, 32, 37, 125,
       123, 37, 101, 110, 100, 32, 114, 97, 119, 32, 109, 37, 125] 0 = .ok (some 20) := by decide +kernel
+
+/-! ### the line numbers the cut rule reads (`tok.pos.Line`, `tok.lin`)
+
+`ParseTemplateSource` decides "the only token in its line" from the line numbers the lexer
+attached to the tokens; the model (`assignAux`) and the specification decide it from the bytes.
+The two agree only if the lexer's line is 1 + the number of LF before the token, i.e. if no byte
+walk of the lexer steps over a LF without `l.newline()` — whatever special handling the context
+has (Markdown back-slash escapes, strings, attribute values, comments, CDATA, raw content). -/
+section LexLines
+open ScriggoV.Lexer ScriggoV.Lexer.Advance
+
+/-- **what the model assumes of the lexer, in closed form**: the token after `pre` is on line
+`firstLine + (number of LF in the tokens before it)` — for a text token its bytes' LF
+(`nl_text`) — and its `lin` adds the token's own LF for texts and comments -/
+theorem model_lines_count_LF (total firstLine off : Nat) (pre : List Raw) (r : Raw) (post : List Raw) :
+    ∃ t, (assignAux total firstLine off (pre ++ r :: post))[pre.length]? = some t ∧ t.raw = r
+      ∧ t.posLine = firstLine + nlSum pre ∧ t.lin = firstLine + nlSum pre + r.linAdd :=
+  ⟨_, assignAux_lines total pre r post firstLine off, rfl, rfl, rfl⟩
+
+/-- every extracted segment passes the checker, or is the CR-after-LF step -/
+theorem lexer_segments_checked : Gen.LexAdvance.segs.all (fun s => s.check || s.isLFCR) = true := by
+  decide +kernel
+
+/-- **the lexer's line is 1 + the number of LF passed** (over lexer.go as extracted on every
+check): on every path through one iteration of the main loop of `scan`, through `scanCodeBlock`,
+`scanTag`, `scanAttribute` and through one iteration of the byte walks of `lexComment`,
+`skipRawContent` and CDATA sections, for every source, offset and value of `quote`: if the
+path's conditions hold, its statements add to `l.line` exactly the number of LF among the bytes
+it advances `p` over. No exception (the CR-after-LF step of C21 is off in its column only). -/
+theorem lexer_steps_count_LF (s : Seg) (hs : s ∈ Gen.LexAdvance.segs)
+    (src : Bytes) (p : Nat) (q : UInt8) (hq : q ∈ quotes) (hg : GuardHolds s.guard src p q) (lc : Nat × Nat) :
+    (Advance.run s.evs (lc, s.base)).1.1
+      = lc.1 + ((src.drop (p + s.base)).take ((Advance.run s.evs (lc, s.base)).2 - s.base)).count 0x0a := by
+  have h := List.all_eq_true.mp lexer_segments_checked s hs
+  rcases Bool.or_eq_true _ _ |>.mp h with h | h
+  · exact Seg.line_counts_LF_of_check s h hq hg lc
+  · exact Seg.line_counts_LF_of_isLFCR s h hg lc
+
+theorem lexer_runes_checked : Gen.LexAdvance.runeSteps.all RuneStep.check = true := by decide +kernel
+
+/-- where the main loop steps over a whole rune without looking at it again (`p += size;
+l.column++`: the character after a Markdown back-slash, …) the path's conditions make its first
+byte something other than a LF: an escape never swallows a line end -/
+theorem lexer_rune_steps_not_LF (r : RuneStep) (hr : r ∈ Gen.LexAdvance.runeSteps)
+    (src : Bytes) (p : Nat) (q : UInt8) (hq : q ∈ quotes) (hg : GuardHolds r.guard src p q) :
+    ∃ c, src[p + r.off]? = some c ∧ c ≠ 0x0a :=
+  RuneStep.check_sound r (List.all_eq_true.mp lexer_runes_checked r hr) hq hg
+
+/-- non-vacuity: the table has the Markdown back-slash step (a rune step whose guard pins the
+byte before it to `\`), and the step over a LF with `l.newline()` -/
+example : Gen.LexAdvance.runeSteps.any (fun r => r.guard.contains (.is 0 [.byte 0x5c] true) && r.off == 1) = true
+    ∧ Gen.LexAdvance.segs.any (fun s => s.guard.contains (.is 0 [.byte 0x0a] true) && s.evs.contains .newline) = true := by
+  decide +kernel
+
+/-- `a\n` + `{# c #}` + ` \n`: the comment is on line 2 (`firstLine` 1, one LF before it) -/
+example : ∃ t, (assignAux 12 1 0 ([.text [97, 10]] ++ .nt ⟨true, true, [], 0, 7, 7⟩ :: [.text [32, 10]]))[1]? = some t
+    ∧ t.posLine = 2 ∧ t.lin = 2 := ⟨_, rfl, rfl, rfl⟩
+
+end LexLines
 
 /-! ### examples (non-vacuity, and the tokenizer on raw blocks) -/
 
